@@ -10,7 +10,7 @@ import copy
 import numpy as np
 
 from . import C10
-from ..core import ulp as core_ulp
+from ..core import ulp as core_ulp, gen_seed
 
 ID = "C15"
 WORLD = "stream"
@@ -82,7 +82,7 @@ def generate(rng, tier):
             ops.append({"op": "reset_start"})
     return {"seams": {"entropy_salt": rng.randrange(1 << 20), "scratch": "c15"},
             "cfg": {"n_ant": n_ant, "delays": delays, "np_ints": np_ints, "pols": pols, "fs": fs, "fch1": fch1,
-                    "ascending": ascending, "t_start": t_start, "seed": rng.randrange(1 << 30), "dyadic": dyadic,
+                    "ascending": ascending, "t_start": t_start, "seed": gen_seed(rng), "dyadic": dyadic,
                     "bg": bg, "own": own},
             "ops": ops}
 
